@@ -373,10 +373,28 @@ def run_c19(ctx):
                 for _ in range(1 if ctx.quick else 2):
                     conf = drv_diag.random_conf(rng, pj) if rng.random() < 0.7 else None
                     cases.append(drv_diag.render_case(s, len(cases), heat, rng.random() < 0.7, conf, tmp))
+        # systems left behind by edit histories (renames, replacements, deletions with and without children, re-adding:
+        # freed node indices, re-ordered registries) - the diagram must show the final structure, not the history
+        import drv_edit
+        hnum, hdepth = (60, 14) if ctx.quick else (800, 30)
+        hb, _ = tlc.run_sim("SimEdit.tla", "SimEdit.cfg", ctx.work, num=hnum, depth=hdepth, seed=ctx.seed + 19)
+        mb, _ = tlc.run_sim("SimEdit.tla", "SimMux.cfg", ctx.work, num=hnum // 3, depth=hdepth, seed=ctx.seed + 20)
+        n_hist = 0
+        for states in hb + mb:
+            s = drv_edit.new_system()
+            for st in states:
+                drv_edit.do_call(s, st["act"]["op"], st["act"]["a"])
+            pj = project(s)
+            structs.add(struct_digest(pj))
+            n_hist += 1
+            for heat in (False, True):
+                conf = drv_diag.random_conf(rng, pj) if rng.random() < 0.5 else None
+                cases.append(drv_diag.render_case(s, len(cases), heat, rng.random() < 0.7, conf, tmp))
     finally:
         shutil.rmtree(tmp, ignore_errors=True)
     _validate(ctx, res, "TraceDiag.tla", "TraceDiag.cfg", cases)
     res.extra["renderings"] = len(cases)
+    res.extra["history_built_systems"] = n_hist
     res.extra["distinct_nontrivial"] = len(structs)
     res.extra["outcomes"] = {}
     for c in cases:
